@@ -239,6 +239,17 @@ func (st *wstate) runLifetime(i int, l *scen.Lifetime) {
 		out.Infra = fmt.Sprintf("lifetime %d: watchdog timeout\nstderr: %s", i, tail(res.Stderr, 2000))
 		return
 	}
+	if res.Report == nil && strings.Contains(res.Stdout+res.Stderr, "test timed out after") {
+		// the real test runner gave up: some call never returned. It is a violation only when a
+		// goroutine is provably parked inside go-snaps on one of its own locks.
+		all := res.Stdout + res.Stderr
+		if blockedInLibrary(all) {
+			out.Viol = viol("hang", i, -1, "", concProps("C20"), "a Match* call never returned: a goroutine is blocked on a go-snaps lock (test binary timed out)\n%s", tail(all, 1800))
+			return
+		}
+		out.Infra = fmt.Sprintf("lifetime %d: test binary timed out\n%s", i, tail(all, 2500))
+		return
+	}
 	rep := res.Report
 	if rep == nil {
 		// the process died without a report: a crash outside a Match* call
@@ -327,6 +338,7 @@ func (st *wstate) runLifetime(i int, l *scen.Lifetime) {
 	}
 	lf := model.NewLife(l)
 	updatedAny := false
+	matcherFailAny := false
 	for ci := range rep.Calls {
 		ev := &rep.Calls[ci]
 		out.Stats.Calls++
@@ -337,14 +349,18 @@ func (st *wstate) runLifetime(i int, l *scen.Lifetime) {
 		}
 		if !ev.Done {
 			// killed or aborted inside this call
-			st.d.MarkDirty(ex.File, scen.Standalone(ex.Call.API))
+			st.d.NoteDirtyCall(ex)
 			continue
 		}
 		obs, bad := model.Decode(ev.Signals)
 		key := ck{ev.CallID, ev.Exec}
 		item := fmt.Sprintf("%s#%d@%s", ex.Test, ex.K, filepath.Base(ex.File))
 		if bad != "" {
-			out.Viol = viol("signals", i, ev.CallID, item, concProps("C20"), "call %d (%s %s): not exactly one outcome: %s", ev.CallID, ex.Call.API, item, bad)
+			props := concProps("C20")
+			if ex.Why == "matcher" {
+				props = append(props, "C17")
+			}
+			out.Viol = viol("signals", i, ev.CallID, item, uniq(props), "call %d (%s %s): not exactly one outcome: %s", ev.CallID, ex.Call.API, item, bad)
 			return
 		}
 		out.Stats.Outcomes[obs]++
@@ -359,12 +375,12 @@ func (st *wstate) runLifetime(i int, l *scen.Lifetime) {
 				}
 			}
 			lf.Tally[obs]++
-			st.d.MarkDirty(ex.File, scen.Standalone(ex.Call.API))
+			st.d.NoteDirtyCall(ex)
 			continue
 		}
 		if ex.Dirty {
 			lf.Tally[obs]++
-			st.d.MarkDirty(ex.File, scen.Standalone(ex.Call.API))
+			st.d.NoteDirtyCall(ex)
 			continue
 		}
 		if ex.Prev != nil {
@@ -378,7 +394,7 @@ func (st *wstate) runLifetime(i int, l *scen.Lifetime) {
 				return
 			}
 			lf.Tally[obs]++
-			st.d.MarkDirty(ex.File, scen.Standalone(ex.Call.API))
+			st.d.NoteDirtyCall(ex)
 			continue
 		}
 		if obs == model.Updated {
@@ -417,12 +433,13 @@ func (st *wstate) runLifetime(i int, l *scen.Lifetime) {
 					if st.hit(vv) {
 						return
 					}
-					st.d.MarkDirty(ex.File, scen.Standalone(ex.Call.API))
+					st.d.NoteDirtyCall(ex)
 					break
 				}
 			}
 		}
 		if ex.Why == "matcher" {
+			matcherFailAny = true
 			text := ""
 			for _, s := range ev.Signals {
 				if s.Kind == "error" {
@@ -510,7 +527,7 @@ func (st *wstate) runLifetime(i int, l *scen.Lifetime) {
 			}
 		}
 	}
-	if st.checkDisk(i, l, lf, after, plan, cleanTouched, updatedAny) {
+	if st.checkDisk(i, l, lf, after, plan, cleanTouched, updatedAny, matcherFailAny) {
 		return
 	}
 	out.Stats.StateHashes = append(out.Stats.StateHashes, after.Hash())
@@ -547,6 +564,21 @@ func faultName(l *scen.Lifetime, op scen.Op) string {
 		}
 	}
 	return "?"
+}
+
+// blockedInLibrary: the goroutine dump of a timed-out test binary shows a
+// goroutine waiting in sync.(*Mutex).Lock / (*RWMutex).Lock/RLock called from a
+// go-snaps function.
+func blockedInLibrary(dump string) bool {
+	for _, g := range strings.Split(dump, "\n\ngoroutine ") {
+		if !strings.Contains(g, "sync.(*Mutex).Lock") && !strings.Contains(g, "sync.(*RWMutex).Lock") && !strings.Contains(g, "sync.(*RWMutex).RLock") && !strings.Contains(g, "sync.runtime_Semacquire") {
+			continue
+		}
+		if strings.Contains(g, "verif/sim/simsync.") && strings.Contains(g, "github.com/gkampitakis/go-snaps/snaps.") {
+			return true
+		}
+	}
+	return false
 }
 
 func libFrameOutsideHarness(s string) string {
